@@ -44,6 +44,7 @@ typedef struct {
     char *struct_type;  /* Struct type name for field resolution (NULL if not a struct) */
     const char *union_name;     /* match-arm binding: the union ... */
     const char *variant_name;   /* ... and the variant it is bound to (NULL otherwise) */
+    bool is_fn;                 /* declared with a function type: (name args) calls its value */
 } Local;
 
 typedef struct {
@@ -276,6 +277,7 @@ static uint16_t local_add(CG *cg, const char *name, int line) {
     cg->locals[slot].struct_type = NULL;
     cg->locals[slot].union_name = NULL;
     cg->locals[slot].variant_name = NULL;
+    cg->locals[slot].is_fn = false;
     cg->local_count++;
     return slot;
 }
@@ -296,6 +298,16 @@ static const char *local_struct_type(CG *cg, const char *name) {
             return cg->locals[i].struct_type;
     }
     return NULL;
+}
+
+/* Slot of the innermost local called `name` if it was declared with a
+ * function type (spec 8.2: it shadows a top-level function of that name) */
+static int16_t local_find_fn(CG *cg, const char *name) {
+    for (int i = cg->local_count - 1; i >= 0; i--) {
+        if (strcmp(cg->locals[i].name, name) == 0)
+            return cg->locals[i].is_fn ? (int16_t)cg->locals[i].slot : -1;
+    }
+    return -1;
 }
 
 /* ── Function lookup ────────────────────────────────────────────── */
@@ -1850,6 +1862,14 @@ static void compile_expr(CG *cg, ASTNode *node) {
             break;
         }
 
+        /* A parameter or let of function type hides a function of the same name */
+        int16_t fn_slot = name ? local_find_fn(cg, name) : -1;
+        if (fn_slot >= 0) {
+            emit_op(cg, OP_LOAD_LOCAL, (int)fn_slot);
+            emit_op(cg, OP_CALL_INDIRECT);
+            break;
+        }
+
         /* Look up function index */
         int32_t fn_idx = name ? fn_find(cg, name) : -1;
         if (fn_idx >= 0) {
@@ -2308,6 +2328,7 @@ static void compile_stmt(CG *cg, ASTNode *node) {
         if (node->as.let.type_name) {
             cg->locals[slot].struct_type = node->as.let.type_name;
         }
+        cg->locals[slot].is_fn = (node->as.let.var_type == TYPE_FUNCTION);
         emit_op(cg, OP_STORE_LOCAL, (int)slot);
         break;
     }
@@ -2635,6 +2656,7 @@ static void compile_stmt(CG *cg, ASTNode *node) {
             if (node->as.function.params[i].struct_type_name) {
                 cg->locals[slot].struct_type = node->as.function.params[i].struct_type_name;
             }
+            cg->locals[slot].is_fn = (node->as.function.params[i].type == TYPE_FUNCTION);
         }
 
         /* Compile nested function body */
@@ -2742,6 +2764,7 @@ static void compile_function(CG *cg, ASTNode *fn_node) {
         if (fn_node->as.function.params[i].struct_type_name) {
             cg->locals[slot].struct_type = fn_node->as.function.params[i].struct_type_name;
         }
+        cg->locals[slot].is_fn = (fn_node->as.function.params[i].type == TYPE_FUNCTION);
     }
 
     /* Compile function body */
